@@ -413,8 +413,14 @@ let begin_op w t =
       | o :: rest ->
         let p =
           match o with
-          | OLock m -> LkFast m
-          | OTry m -> TryFast m
+          | OLock m ->
+            (match s.held with
+             | Some _ -> Crash (Zpos (Coq_xO (Coq_xO Coq_xH)))
+             | None -> LkFast m)
+          | OTry m ->
+            (match s.held with
+             | Some _ -> Crash (Zpos (Coq_xO (Coq_xO Coq_xH)))
+             | None -> TryFast m)
           | OUnlock ->
             (match s.held with
              | Some m -> UlFast m
